@@ -40,7 +40,7 @@ let parse_program (s : string) : reg list =
   rs
 
 (* ---------- observation = calls, err, levels ---------- *)
-type obs = { calls : int; err : string; levels : (int * (string * string) list) list }
+type obs = { calls : int; err : string; errs : string; levels : (int * (string * string) list) list }
 
 let shape_to_string (sh : int list list) : string =
   if sh = [] then "-"
@@ -66,20 +66,40 @@ let model_level (tag : int) (prog : reg list) : (int * (string * string) list) o
               ("tlorder", tok_of_ints (List.map int_of_n (b_tl b)));
               ("sendable", if sendable b then "1" else "0") ])
 
+(* recovery mode (rec=1): rejected registrations are caught and the builder is used on *)
+let builder_fields (b : builder) : (string * string) list =
+  let lay = layout_tags b in
+  let order = List.map int_of_n (List.concat (List.concat lay)) in
+  let sh = List.map (List.map int_of_nat) (shape b) in
+  [ ("print", hex_of_bytes (print_builder b));
+    ("shape", shape_to_string sh);
+    ("tl", string_of_int (List.length (b_tl b)));
+    ("maxthr", string_of_int (int_of_nat (max_threads b)));
+    ("order", tok_of_ints order);
+    ("tlorder", tok_of_ints (List.map int_of_n (b_tl b)));
+    ("sendable", if sendable b then "1" else "0") ]
+
+let model_obs_rec (regs : reg list) : obs =
+  let es = rec_errs regs in
+  let lv = levels (accepted regs) in
+  { calls = int_of_nat (rec_calls regs); err = "none";
+    errs = (if es = [] then "-" else String.concat "," (List.map (fun (i, e) -> Printf.sprintf "%d@%s" (int_of_nat i) (err_to_string e)) es));
+    levels = List.map (fun (t, _) -> (int_of_n t, builder_fields (plan_rec (level_prog regs t)))) lv }
+
 let model_obs (regs : reg list) : obs =
   match plan regs with
   | Err e ->
       let idx = match err_index_regs regs empty_builder with Some i -> int_of_nat i | None -> -1 in
-      { calls = idx; err = err_to_string e; levels = [] }
+      { calls = idx; err = err_to_string e; errs = ""; levels = [] }
   | Ok _ ->
       let lv = levels regs in
-      { calls = int_of_nat (calls_regs regs); err = "none";
+      { calls = int_of_nat (calls_regs regs); err = "none"; errs = "";
         levels = List.filter_map (fun (t, prog) -> model_level (int_of_n t) prog) lv }
 
 (* "calls=3;err=none;L0{print=..;shape=..};L5{...};" *)
 let parse_obs (s : string) : obs =
   let len = String.length s in
-  let calls = ref (-1) and err = ref "?" and levels = ref [] in
+  let calls = ref (-1) and err = ref "?" and errs = ref "" and levels = ref [] in
   let i = ref 0 in
   while !i < len do
     if s.[!i] = 'L' then begin
@@ -103,12 +123,12 @@ let parse_obs (s : string) : obs =
       (match String.index_opt kv '=' with
        | Some k ->
            let key = String.sub kv 0 k and v = String.sub kv (k + 1) (String.length kv - k - 1) in
-           if key = "calls" then calls := int_of_string v else if key = "err" then err := v
+           if key = "calls" then calls := int_of_string v else if key = "err" then err := v else if key = "errs" then errs := v
        | None -> ());
       i := e + 1
     end
   done;
-  { calls = !calls; err = !err; levels = List.rev !levels }
+  { calls = !calls; err = !err; errs = !errs; levels = List.rev !levels }
 
 (* ---------- statistics ---------- *)
 let n_cases = ref 0
@@ -159,7 +179,8 @@ let check_line (line : string) : unit =
         | _ -> failwith "bad case line" in
       let regs = parse_program prog_s in
       let real = parse_obs real_s in
-      let model = model_obs regs in
+      let recmode = (match Str.bounded_split (Str.regexp_string " :: ") case 2 with h :: _ -> List.mem "rec=1" (split_on ' ' h) | [] -> false) in
+      let model = if recmode then model_obs_rec regs else model_obs regs in
       incr n_cases;
       let fresh = not (Hashtbl.mem seen prog_s) in
       if fresh then begin Hashtbl.add seen prog_s (); incr n_distinct end;
@@ -194,6 +215,7 @@ let check_line (line : string) : unit =
       (* --- correspondence --- *)
       if model.calls <> real.calls then disagree "calls" 0 (string_of_int model.calls) (string_of_int real.calls);
       if model.err <> real.err then disagree "err" 0 model.err real.err;
+      if model.errs <> real.errs then disagree "errs" 0 model.errs real.errs;
       List.iter (fun (tag, mf) ->
           match List.assoc_opt tag real.levels with
           | None -> disagree "level-missing" tag "present" "absent"
@@ -202,20 +224,24 @@ let check_line (line : string) : unit =
                   let rv = try List.assoc k rf with Not_found -> "<missing>" in
                   if rv <> "na" && mv <> rv then disagree k tag mv rv) mf) model.levels;
       List.iter (fun (tag, _) ->
-          if not (List.mem_assoc tag model.levels) then disagree "level-extra" tag "absent" "present")
+          (* (recovery mode: the inner level of a rejected batch was built and thrown away: no claim about it) *)
+          if not recmode && not (List.mem_assoc tag model.levels) then disagree "level-extra" tag "absent" "present")
         real.levels;
       (* --- oracles on the real observation --- *)
+      if recmode then (if real.err <> "none" then oracle "errors_exact" 0) else
       (match spec_first_error regs with
        | None ->
            if real.err <> "none" then oracle "errors_exact" 0
            else if real.calls <> int_of_nat (calls_regs regs) then oracle "errors_exact" 0
        | Some (idx, e) ->
            if real.err <> err_to_string e || real.calls <> int_of_nat idx then oracle "errors_exact" 0);
-      let progs = List.map (fun (t, p) -> (int_of_n t, p)) (levels regs) in
+      (* recovery mode: the specification of a level is the program of its ACCEPTED registrations *)
+      let progs = if recmode then List.map (fun (t, _) -> (int_of_n t, accepted (level_prog regs t))) (levels (accepted regs))
+                  else List.map (fun (t, p) -> (int_of_n t, p)) (levels regs) in
       let max_group = ref 0 and n_stages = ref 0 in
       List.iter (fun (tag, rf) ->
           match List.assoc_opt tag progs with
-          | None -> oracle "unknown-level" tag
+          | None -> if not recmode then oracle "unknown-level" tag
           | Some _ when (try List.assoc "shape" rf = "na" with Not_found -> true) ->
               (* inner level of a MultiDispatcher batch: only the printed text is observable *)
               ()
@@ -233,13 +259,15 @@ let check_line (line : string) : unit =
               if not (o_isolated prog lay) then oracle "isolated" tag;
               if not (o_deps_ordered prog lay) then oracle "deps_ordered" tag;
               if not (o_barriers prog lay) then oracle "barriers" tag;
-              if not (o_skip_justified prog lay) then oracle "skip_justified" tag;
+              (* (skip_justified and print_matches recompute SystemIds from positions: ids have gaps after a rejected call;
+                  the printed text is compared with the model's in the correspondence part) *)
+              if not recmode && not (o_skip_justified prog lay) then oracle "skip_justified" tag;
               (match int_of_string_opt (get "maxthr") with
                | Some m -> if not (o_max_threads lay (nat_of_int m)) then oracle "max_threads" tag
                | None -> if get "maxthr" <> "na" then oracle "max_threads" tag);
               let pr = get "print" in
               if String.length pr >= 5 && String.sub pr 0 5 = "PANIC" then oracle "print_total" tag
-              else if not (o_print prog lay (bytes_of_hex pr)) then oracle "print_matches" tag;
+              else if not recmode && not (o_print prog lay (bytes_of_hex pr)) then oracle "print_matches" tag;
               let tlorder = (try list_of_tok int_of_string (get "tlorder") with _ -> []) in
               if List.map n_of_int tlorder <> tl_tags prog then oracle "tl_order" tag;
               if get "sendable" <> "na" && not (o_sendable prog (get "sendable" = "1")) then oracle "sendable" tag;
@@ -259,6 +287,7 @@ let check_line (line : string) : unit =
         bump ("systems:" ^ bucket s);
         bump ("stages:" ^ bucket !n_stages);
         bump ("maxgroup:" ^ string_of_int !max_group);
+        if recmode then begin bump "recover"; if real.errs <> "-" && real.errs <> "" then bump "recover:with-rejected-calls" end;
         if b > 0 then bump "has-batch";
         if t > 0 then bump "has-thread-local";
         if br > 0 then bump "has-barrier";
